@@ -10,7 +10,12 @@ G: every table the specification selects comes with the file bytes (chunks) and 
    (twice, in two orders) and get_number_of_symbols are compared with the view.  The mach mode repeats this for
    every e_machine of the specification's alphabet; the multi mode emits files with several symbol tables (section
    names own / equal / blank) with the view of every table and query schedules over (table, name): every schedule
-   is walked on one ELFFile, with cached and with freshly fetched section objects.
+   is walked on one ELFFile, with cached and with freshly fetched section objects.  The dyn mode emits dynamic objects
+   (.dynsym / .dynstr / .hash / .gnu.hash / .dynamic, PT_LOAD, PT_DYNAMIC; with and without section headers; duplicate and
+   several empty names): the table as the PT_DYNAMIC segment gives it (DynamicSegment num_symbols / get_symbol / iter_symbols /
+   get_symbol_by_name) is compared with the same view, and every client session the specification walked (ClientCall: look-ups
+   by name in every order, count, listing, by index, a stepwise iteration in between; expected answer per call in the log) is
+   replayed call by call on ONE long-lived object - the segment, and the .dynsym section object.
 T: for every SHT_HASH / SHT_GNU_HASH section of the corpus files the raw section bytes and the library's
    answers for every symbol name and for absent names are validated by spec/trace/SymHashTrace.tla against
    the same reader machines (total verdict)."""
@@ -111,7 +116,7 @@ def _patterns(symsec, n):
     yield 'get_symbol.reverse', [symsec.get_symbol(i) for i in reversed(range(n))][::-1]
 
 
-def _replay(run, ctx, case, ELFFile):
+def _replay(run, ctx, case, ELFFile, sessions=()):
     data = concretise(case['chunks'])
     syms = case['syms']
     n = len(syms)
@@ -120,6 +125,8 @@ def _replay(run, ctx, case, ELFFile):
     tag = '%s/%s' % (mode, case['kind'])
     if mode == 'mach':
         tag += '/cls%d/em%d' % (case['cls'], case['mach'])
+    if mode == 'dyn':
+        tag += '/%s/%s' % ('sht' if case['dyn']['sht'] else 'nosht', case['dyn']['tags'])
     small = len(data) < 3000
     brief = {'mode': mode, 'cls': case['cls'], 'le': case['le'], 'kind': case['kind'], 'ent': case['ent'], 'hp': hp, 'ix': case['ix'],
              'e_machine': case['mach'],
@@ -135,6 +142,11 @@ def _replay(run, ctx, case, ELFFile):
     except Exception as ex:
         bad('open', 'ELFFile', 'exc:%s:%s' % (type(ex).__name__, ex))
         return
+    if mode == 'dyn':
+        brief = dict(brief, dyn=case['dyn'])
+        _replay_dyn(run, ctx, case, ELFFile, data, brief, tag, sessions)
+        if not case['dyn']['sht']:
+            return 0                              # no section headers: the segment view is all there is
     ix = case['ix']
     want_cls = {'sym': 'SymbolTableSection', 'str': 'StringTableSection', 'hash': 'ELFHashSection', 'gnu': 'GNUHashSection',
                 'shndx': 'SymbolTableIndexSection', 'info': 'SUNWSyminfoTableSection'}
@@ -319,6 +331,111 @@ def _replay_multi(run, ctx, case, ELFFile, data, brief):
                     {'returned': [[s.name, s['st_value']] for s in r], 'indices in this table': cand})
 
 
+def _replay_dyn(run, ctx, case, ELFFile, data, brief, tag, sessions):
+    """A dynamic object: the table as the PT_DYNAMIC segment gives it, then every session of the specification on one
+    long-lived object (the segment / the .dynsym section)."""
+    syms = case['syms']
+    n = len(syms)
+    pat = ['-']
+
+    def bad(clause, expected, observed, t=None):
+        run.mismatch(clause, t or tag, dict(brief, pattern=pat[0]), expected, observed)
+
+    def ident(sym):
+        """The index of the specification's entry this symbol is (names and values: the writer gives every symbol of a
+        table its own value), -1 if none."""
+        hits = [i for i, e in enumerate(syms) if denote(e[1]) == sym['st_value'] and ctx.strs[e[0] - 1] == sym.name]
+        return hits[0] if len(hits) == 1 else -1
+
+    def target(ef, tgt):
+        if tgt == 'seg':
+            obj = ef.get_segment(case['dyn']['pt'])
+            want = 'DynamicSegment'
+        else:
+            obj = ef.get_section(case['ix']['sym'])
+            want = 'SymbolTableSection'
+        if type(obj).__name__ != want:
+            bad('front-end', want, type(obj).__name__)
+            return None
+        return obj
+
+    # ---- enumeration through the segment
+    try:
+        with core.guard(20):
+            seg = target(ELFFile(io.BytesIO(data)), 'seg')
+            if seg is None:
+                return
+            got_n = seg.num_symbols()
+            if got_n != n:
+                bad('segment.num_symbols', n, got_n)
+                return
+            ref = None
+            for name, got in _patterns(seg, n):
+                pat[0] = name
+                keys = [_entry_key(s) for s in got]
+                if ref is not None and keys == ref:
+                    continue
+                if len(got) != n:
+                    bad('segment.enumeration.count', n, len(got))
+                for i, (e, s) in enumerate(zip(syms, got)):
+                    _cmp_symbol(ctx, lambda c, x, o, t=None: bad('segment.' + c, x, o, t), i, e, s)
+                if ref is None:
+                    ref = keys
+            pat[0] = '-'
+    except Exception as ex:
+        bad('segment.enumeration', 'the %d entries' % n, 'exc:%s:%s' % (type(ex).__name__, ex))
+        return
+    # ---- sessions
+    # (a scripted session has an ELFFile of its own; the free sessions of a file share one ELFFile and ask it for the segment /
+    # section object anew - whatever an earlier session left behind on the file object must not show either)
+    shared = None
+    for sn in sessions:
+        tgt, disc, log = sn['tgt'], sn['disc'], sn['log']
+        pat[0] = 'session %s/%s' % (tgt, disc)
+        if disc == 'free':
+            shared = shared or ELFFile(io.BytesIO(data))
+            obj = target(shared, tgt)
+        else:
+            obj = target(ELFFile(io.BytesIO(data)), tgt)
+        if obj is None:
+            return
+        it = None
+        for step, (op, q, ans) in enumerate(log):
+            exp = {'call': [op, ctx.strs[q - 1] if op == 'name' else q], 'answer (indices)': ans,
+                   'earlier calls': [[o, ctx.strs[a - 1] if o == 'name' else a] for o, a, _ in log[:step]]}
+            t = '%s/%s' % (tgt, disc)
+            try:
+                with core.guard(10):
+                    if op == 'name':
+                        r = obj.get_symbol_by_name(ctx.strs[q - 1])
+                        obs = [] if not r else sorted(ident(x) for x in r)
+                        clause = 'session.get_symbol_by_name'
+                        t = '%s/%s' % (tgt, 'duplicates' if len(ans) > 1 else 'present' if ans else 'absent')
+                    elif op == 'num':
+                        obs, clause = [obj.num_symbols()], 'session.num_symbols'
+                    elif op == 'all':
+                        obs, clause = [ident(x) for x in obj.iter_symbols()], 'session.iter_symbols'
+                    elif op == 'get':
+                        obs, clause = [ident(obj.get_symbol(q))], 'session.get_symbol'
+                    elif op == 'open':
+                        it, obs, clause = obj.iter_symbols(), [], 'session.iter_open'
+                    elif op == 'step':
+                        x = next(it, None)
+                        obs, clause = ([] if x is None else [ident(x)]), 'session.iter_step'
+                    else:
+                        raise core.MachineryError('unknown session call %r' % op)
+            except core.MachineryError:
+                raise
+            except Exception as ex:
+                bad('session.exception', exp, 'exc:%s:%s' % (type(ex).__name__, ex), t=t)
+                break
+            if obs != ans:
+                bad(clause, exp, obs, t=t)
+                break
+        run.validated += 1
+    pat[0] = '-'
+
+
 # ----------------------------------------------------------------------------- T: corpus traces
 def _absent(names, k):
     """Names that are not in the table, derived from those that are (prefixes, extensions, one-byte changes)."""
@@ -443,7 +560,10 @@ def check(run):
                 '257-entry tables sweeping st_info/st_other/st_shndx/value/size as .dynsym, .symtab (sh_entsize + 8) and '
                 '.SUNW_ldynsym with .symtab_shndx and .SUNW_syminfo, and the empty table; mach mode: small hashed tables x e_machine '
                 'codes x class/byte order; multi mode: files with 2..3 symbol tables x section naming own/same/blank x 4 query '
-                'schedules over (table, name)); distinct by file bytes; non-trivial = at '
+                'schedules over (table, name); dyn mode: dynamic objects (PT_LOAD, PT_DYNAMIC, .dynamic; tables with duplicate '
+                'and several empty names) x with / without section headers x DT_HASH / DT_GNU_HASH / both, each with the client '
+                'sessions of the specification (up / down / weave / free) on the segment and on the section object); distinct by '
+                'file bytes; non-trivial = at '
                 'least one symbol after the null entry.  T cases = hash sections of the corpus files; non-trivial = all of them')
     run.assumptions += ['GNU tables: symoffset >= 1 (bucket value 0 means "empty"); bloom_size >= 1, nbuckets >= 1, shift < 32',
                         'GNU tables without a populated bucket whose symoffset is not the table length (GNU ld output for objects '
@@ -460,7 +580,7 @@ def check(run):
            [('SymHash_thorough_all', None), ('SymHash_fields_thorough', 1)]
     ctx = None
     seen = set()
-    nlook = 0
+    nlook = nsess = nsegs = 0
     for cfg, workers in runs:
         res = run.tlc('SymHash', cfg, env=JVM, workers=workers)
         if ctx is None:
@@ -470,8 +590,12 @@ def check(run):
                     break
         if ctx is None:
             raise core.MachineryError('SymHash/%s emitted no tables record' % cfg)
+        sessions = {}
+        for c in run.cases(res.out):
+            if 'sess' in c:
+                sessions.setdefault(c['sess'], []).append(c)
         for case in run.cases(res.out):
-            if 'tables' in case:
+            if 'tables' in case or 'sess' in case:
                 continue
             key = core.digest(case['chunks'])
             if key in seen:
@@ -484,13 +608,24 @@ def check(run):
                                     'names': [ctx.strs[s[0] - 1][:8] for s in case['syms']][:8], 'look': case['look'],
                                     'byname': case['byname']})
             try:
-                nlook += _replay(run, ctx, case, ELFFile) or 0
+                own = sessions.get(case['key'], ()) if case['mode'] == 'dyn' else ()
+                if case['mode'] == 'dyn' and not own:
+                    raise core.MachineryError('dyn case %s without sessions' % case['key'])
+                nsess += len(own)
+                nsegs += case['mode'] == 'dyn'
+                nlook += _replay(run, ctx, case, ELFFile, own) or 0
+            except core.MachineryError:
+                raise
             except Exception as ex:
                 import traceback
                 run.mismatch('exception', case['mode'], {'cls': case['cls'], 'le': case['le'], 'hp': case['hp'], 'chunks': case['chunks']},
                              'no exception', 'exc:%s:%s @ %s' % (type(ex).__name__, ex, traceback.format_exc().splitlines()[-3].strip()))
-    run.validated = run.evaluations
+    run.validated += run.evaluations
     run.extra['hash_lookups_replayed'] = nlook
+    run.extra['dynamic_objects'] = nsegs
+    run.extra['sessions_replayed'] = nsess
+    if run.tier in ('quick', 'thorough') and not nsess:
+        raise core.MachineryError('no client session was replayed')
     _trace_check(run)
     if not run.samples:
         run.samples.append({'note': 'no sample'})
